@@ -20,7 +20,6 @@ import (
 	"fmt"
 	"os"
 	"runtime"
-	"runtime/pprof"
 	"sort"
 	"strconv"
 	"strings"
@@ -821,11 +820,6 @@ func codec(r *ev.Run) {
 }
 
 func main() {
-	if pf := os.Getenv("C18_PROF"); pf != "" {
-		f, _ := os.Create(pf)
-		pprof.StartCPUProfile(f)
-		defer pprof.StopCPUProfile()
-	}
 	r := ev.New("C18", "model_checking")
 	type sc struct {
 		nodes, starts, depth int
@@ -861,6 +855,5 @@ func main() {
 	r.Assume("the peer table inside RedisPubsubPeers runs on the wall clock (not the injected Clock); the hook swaps it for the harness clock right after Start() and re-stamps the self entry")
 	r.Assume("callback oracle (weak): whenever a processed message leaves a list different from the one of the last fired callback a callback must fire, and the final list must have been notified; expiry without any message is not required to notify")
 	r.Assume("states merged on: per running node the physical peer table relative to now (expired offsets clipped at -2ns: only the sign is observable), notified hash/list, pending multiset, interval class; per slot incarnation count. Suffix evaluated once per canonical state (identical futures)")
-	pprof.StopCPUProfile()
 	r.Finish()
 }
